@@ -261,6 +261,22 @@ def order_case(item):
                     res["problems"].append("%d children: the value served for ordering %r after ordering %r was computed differs from the cold value by %.3e (bit-exact comparison)" % (
                         n_children, list(pb), list(pa), float(np.max(np.abs(warm - cold[pb])))))
                     return res
+        # nearly equal is not equal: children that differ from earlier ones in the last digits only (the same mutations summed in
+        # another order) must get their own value, not the earlier one
+        for scale in (1e-15, 1e-13, 1e-11):
+            near = [a * (1.0 + scale * ((k % 3) - 1)) + scale * k for k, a in enumerate(arrs)]
+            if all(np.array_equal(x, y) for x, y in zip(near, arrs)):
+                continue
+            S.clear_caches(all_caches=True)
+            cold_near = np.array(tn.compute_log_S([x.copy() for x in near]), copy=True)
+            S.clear_caches(all_caches=True)
+            tn.compute_log_S([a.copy() for a in arrs])
+            warm_near = np.asarray(tn.compute_log_S([x.copy() for x in near]))
+            res["n"] += 1
+            if warm_near.tobytes() != cold_near.tobytes():
+                res["problems"].append("%d children: after the recursion was computed for a children list, a list that differs from it by %.0e (relative) is served a value that differs from its cold value by %.3e (bit-exact comparison)" % (
+                    n_children, scale, float(np.max(np.abs(warm_near - cold_near)))))
+                return res
     except Exception as e:
         res["problems"].append("raised %s: %s" % (type(e).__name__, str(e)[:120]))
     finally:
